@@ -552,12 +552,25 @@ def reply_desc(pkt: bytes) -> str:
 # request bodies for the real server: one valid body per handler and version
 
 
+def _time_bits() -> int:
+    """`_process_open/setstat/fsetstat/lsetstat` format the attributes for a debug message eagerly
+    (`hide_empty(attrs)` -> `time.ctime`); in a tree where that raises for times beyond the platform's calendar
+    range (observation O1, reported by C14.oracle_big_times) generated times stay below 2^40, otherwise they use
+    all 64 bits."""
+    try:
+        str(S.SFTPAttrs(atime=2 ** 63, mtime=2 ** 60, crtime=2 ** 64 - 1))
+        return 64
+    except (OverflowError, OSError, ValueError):
+        return 40
+
+
+TIME_BITS = _time_bits()
+
+
 def valid_attrs_bytes(rng: Any, v: int) -> bytes:
-    """attributes inside a request body.  Times stay below 2^40: `_process_open/setstat/fsetstat/lsetstat` format
-    the attributes for a debug message eagerly (`hide_empty(attrs)` -> `time.ctime`), which raises for times
-    beyond the platform's calendar range and turns the request into FX_FAILURE (observation O1, not modelled)."""
+    """attributes inside a request body (times: see `_time_bits`)"""
     bits = [b for b in FLAG_BITS[v] if rng.random() < 0.3]
-    return attrs_for_flags(rng, v, bits, time_bits=40).encode(v)
+    return attrs_for_flags(rng, v, bits, time_bits=TIME_BITS).encode(v)
 
 
 def valid_body(rng: Any, key: Any, v: int, fh: bytes, dh: bytes) -> bytes:
